@@ -2,6 +2,7 @@ import Drivers.Wire
 import Model.Timeout
 import Model.SharedStorage
 import Model.StopFlag
+import Model.MultiSearch
 
 /-! Driver for C14: one request = one scenario (evaluator ops and/or `search` calls).
 
@@ -231,6 +232,41 @@ def handleWorld (j : Json) : Except String Json := do
     ("results", Json.arr (w.evs.map (fun l => ofNats l.results)).toArray),
     ("running", Json.arr (w.evs.map (fun l => ofNats l.running)).toArray), ("now", nat w.now)]
 
+/-! ### several searches in one storage object (`Model/MultiSearch.lean`)
+
+`{"op":"store","searches":[{"Ws":[2],"hpo":true,"specs":[…]},{"Ws":[1],"specs":[…]}],
+  "acts":[{"s":0,"e":0,"op":"search",…},{"s":1,"e":0,"op":"search",…}, …]}`  (`s` = the search, `e` = its evaluator that
+acts; the acts are those of `world`)
+→ `{"ok":true,"outs":[…],"searches":[{"jobs":[…],"results":[[…]],"running":[[…]],"now":…},…],"now":…}` -/
+
+def handleStore (j : Json) : Except String Json := do
+  let ss ← (← field j "searches").getArr?
+  let mut cfg : List (List Nat × Bool × List Spec) := []
+  for sj in ss do
+    cfg := cfg ++ [(← jList jNat (← field sj "Ws"), ← jBool (fieldD sj "hpo" true), ← jList jSpec (← field sj "specs"))]
+  let acts ← (← field j "acts").getArr?
+  let mut st := sinit cfg
+  let mut outs : Array Json := #[]
+  for a in acts do
+    let s ← jNat (← field a "s")
+    let k ← jNat (← field a "e")
+    match st.searches[s]? with
+    | none => throw s!"no search {s}"
+    | some w0 =>
+      let w : World := { w0 with now := st.now }
+      match w.evs[k]? with
+      | none => throw s!"no evaluator {k} on search {s}"
+      | some l =>
+        let (s', out) ← runAct (view w l) a
+        let w' := put w k s'
+        st := { now := w'.now, searches := st.searches.set s w' }
+        outs := outs.push out
+  let one (w : World) : Json := Json.mkObj [("jobs", Json.arr (w.jobs.map jobJson).toArray),
+    ("results", Json.arr (w.evs.map (fun l => ofNats l.results)).toArray),
+    ("running", Json.arr (w.evs.map (fun l => ofNats l.running)).toArray), ("now", nat w.now)]
+  return Json.mkObj [("ok", true), ("outs", Json.arr outs), ("searches", Json.arr (st.searches.map one).toArray),
+    ("now", nat st.now)]
+
 def jRow (j : Json) : Except String (Nat × Status) := do
   let a ← j.getArr?
   match a.toList with
@@ -279,6 +315,7 @@ def handle (j : Json) : Except String Json := do
   if (fieldD j "op" Json.null) == Json.str "checklog" then return ← handleCheck j
   if (fieldD j "op" Json.null) == Json.str "checkshared" then return ← handleCheckShared j
   if (fieldD j "op" Json.null) == Json.str "world" then return ← handleWorld j
+  if (fieldD j "op" Json.null) == Json.str "store" then return ← handleStore j
   let W ← jNat (← field j "W")
   let hpo ← jBool (fieldD j "hpo" false)
   let specs ← jList jSpec (← field j "specs")
